@@ -203,12 +203,13 @@ class RandomHistories(Facet):
         nobj = st.integers(2, 3)
         multi = nobj.flatmap(
             lambda k: st.builds(
-                lambda vs, m, agg, bs, fm: {"kind": "multi", "values": vs, "minimize": m, "aggregate": agg, "batches": bs, "form": fm},
+                lambda vs, m, agg, bs, fm, tr: {"kind": "multi", "values": vs, "minimize": m, "aggregate": agg, "batches": bs, "form": fm, "tracker": tr},
                 st.lists(st.lists(exact_int_values(-2, 2), min_size=k, max_size=k), min_size=1, max_size=10),
                 st.one_of(st.booleans(), st.lists(st.booleans(), min_size=k, max_size=k)),
                 st.sampled_from(["default", "first", "sum", "neg-last"]),
                 st.lists(st.integers(1, 4), min_size=10, max_size=10),
                 st.sampled_from(BATCH_FORMS),
+                st.sampled_from(["multi", "multi", "single"]),
             ),
         )
         return st.one_of(single, multi)
@@ -242,9 +243,47 @@ class RandomHistories(Facet):
         rec.label("aggregate:" + agg, "minimize:" + ("list" if isinstance(minimize, list) else "bool"))
         problem = MultiObjectiveProblem(minimize if not isinstance(minimize, list) else list(minimize), lambda p: list(p[1]), aggregate_fitness=user)
         spy = _mk_recorder()
-        tracker = MultiObjectiveProgressTracker(problem, SequentialEvaluator(), recorders=[spy])
         rep = TableRep()
         inds = [Individual((i, tuple(v)), rep) for i, v in enumerate(values)]
+        if case.get("tracker") == "single":
+            # the single-best tracker (the one random search, hill climbing and (1+1) return from) on a
+            # multi-objective problem: "better" is the problem's aggregate comparison and nothing else
+            from geneticengine.evaluation.tracker import SingleObjectiveProgressTracker
+
+            rec.label("single-best-tracker-on-multi-objective-problem")
+            tracker = SingleObjectiveProgressTracker(problem, SequentialEvaluator(), recorders=[spy])
+            pos, ref_best, exp_flags = 0, None, []
+            for b in case["batches"]:
+                chunk = inds[pos : pos + b]
+                if not chunk:
+                    break
+                tracker.evaluate(as_batch(chunk, case.get("form", "list"), pos))
+                pos += len(chunk)
+                for ind in chunk:
+                    a = ref_agg(ind.genotype[1])
+                    if ref_best is None or a > ref_agg(ref_best.genotype[1]):
+                        ref_best = ind
+                        exp_flags.append(True)
+                    else:
+                        exp_flags.append(False)
+                got = tracker.get_best_individual()
+                if got is not ref_best:
+                    ga = None if got is None else ref_agg(got.genotype[1])
+                    worse = got is None or ga < ref_agg(ref_best.genotype[1])
+                    rec.fail(
+                        "C12/single-on-multi/" + ("best-is-not-the-best-evaluated" if worse else "best-replaced-on-tie"),
+                        f"history {values} (minimize={minimize}, aggregate {agg}): after {pos} evaluations the tracker reports {None if got is None else got.genotype} (aggregate {ga}), the first individual attaining the best aggregate is {ref_best.genotype} ({ref_agg(ref_best.genotype[1])})",
+                    )
+                    return
+                flags = [f for _, f in spy.events]
+                if flags != exp_flags[: len(flags)] or len(flags) != len(exp_flags):
+                    rec.fail("C12/single-on-multi/is_best-flag-wrong", f"history {values} (minimize={minimize}, aggregate {agg}): is_best flags {flags}, expected {exp_flags}")
+                    return
+            aggs = [ref_agg(v) for v in values]
+            if len(set(aggs)) < len(aggs) and len(set(map(tuple, values))) == len(values):
+                rec.nontrivial(case)
+            return
+        tracker = MultiObjectiveProgressTracker(problem, SequentialEvaluator(), recorders=[spy])
         pos = 0
         best_so_far = None
         seen_events = 0
